@@ -1163,3 +1163,27 @@ Proof.
   destruct (gc_exact h H) as [x [Ex Sx]]. rewrite E in Ex. inversion Ex; subst x.
   apply Sx in Hi. eapply reachable_ext; [| |exact Hi]; auto.
 Qed.
+
+(* ------------------------------------------------------------------ decidable wf (for Examples) *)
+Fixpoint nodupb (l : list N) : bool :=
+  match l with
+  | [] => true
+  | x :: t => negb (memN x t) && nodupb t
+  end.
+
+Lemma nodupb_ok l : nodupb l = true -> NoDup l.
+Proof.
+  induction l as [|x t IH]; simpl; intros H; [constructor|].
+  apply andb_true_iff in H. destruct H as [H1 H2]. constructor; auto.
+  intros Hin. apply memN_in in Hin. rewrite Hin in H1. discriminate.
+Qed.
+
+Definition wf_check (h : heap) : bool :=
+  nodupb (ids h) && forallb (fun b => Nat.eqb (visits b) 0 && negb (mark b)) h.
+
+Lemma wf_check_ok h : wf_check h = true -> wf h.
+Proof.
+  unfold wf_check. intros H. apply andb_true_iff in H. destruct H as [H1 F].
+  split; [now apply nodupb_ok|]. intros b Hb. rewrite forallb_forall in F. specialize (F b Hb).
+  apply andb_true_iff in F. destruct F as [F1 F2]. apply Nat.eqb_eq in F1. apply negb_true_iff in F2. auto.
+Qed.
